@@ -21,13 +21,15 @@ if __name__ == "__main__":
 import vlib
 
 ASSUMPTIONS = [
-    "plan translation validation (C01p): the theorem tv2_sound is about the gateway MODEL gateway2 (coq/C01/ProofsPlan2.v: one "
-    "Sub-mode request per root subgraph, answers merged and read in the client's order, then one _entities request per entity "
-    "root field with the representation read off the root answer, result merged at the field, planner-added fields hidden); that "
-    "the real loader + renderer execute the dumped plan as gateway2 does is not proved here: it is tied by (a) the request "
-    "comparison of this part (model requests == requests of the real plan and of real end-to-end runs, as sets, modulo printing), "
-    "(b) the extracted gateway2 run on the sampled universes == the real gateway response (member order aside), and by the loader / "
-    "renderer / scheduler models of C02, C07, C08",
+    "plan translation validation (C01p): the theorems tv3_sound / tv2_sound are about the gateway MODEL gateway3 / gateway2 "
+    "(coq/C01/ProofsPlan3.v, ProofsPlan2.v: one Sub-mode request per root subgraph, the answers merged and read in the client's "
+    "order; then, recursively at every object of the response, the entity fetches of that position -- one _entities request per "
+    "object, representation read off the object as merged so far --, the members assembled in the client's order from the sources, "
+    "planner-added fields never rendered, non-null violations propagated as the renderer does); that the real loader + renderer "
+    "execute the dumped plan as the model does is not proved here: it is tied by (a) the request comparison of this part (model "
+    "requests == fetches of the real plan; every request of real end-to-end runs is one of the model's, modulo printing, batching of "
+    "the per-object entity requests and single flight), (b) the extracted gateway3 run on the sampled universes == the real gateway "
+    "response, member for member, and by the loader / renderer / scheduler models of C02, C07, C08",
     "C01p trusted base: harness/cmd/c01p (planning with the engine's own recipe -- normalise, validate, extract + map variables, "
     "plan.Planner, postprocess.Processor --, dump of fetch tree / request templates / representation templates; the upstream query "
     "texts are parsed with the repo's parser and dumped by fedlab.DumpDocument), ocaml/c01p/driver.ml (reader, the canonical form "
@@ -35,9 +37,10 @@ ASSUMPTIONS = [
     "counted once -- single flight, C11), ocaml/common/gqlread.ml, extraction (ExtrOcamlBasic)",
     "C01p: the theorem is about the operation the planner is given (normalised, fragment spreads inlined, literals extracted into "
     "variables, variables renamed); that normalisation preserves the client operation's meaning is property C03; configurations "
-    "satisfy harness/fedlab/CONTRACT.md; the universe contract univ2_contract_b (objects reached through a subgraph's fields have "
-    "types the subgraph declares, declared keys identify entities and are plain non-null leaves, computed (@requires) fields only "
-    "where declared) is evaluated on every sampled universe and the count reported",
+    "satisfy harness/fedlab/CONTRACT.md; the universe contract univ3_contract_b (objects reached through a subgraph's fields have "
+    "types the subgraph declares, declared keys identify entities, key fields and @requires inputs are plain non-null leaves, "
+    "computed (@requires) fields only where declared, list-typed fields hold lists) is evaluated on every sampled universe and the "
+    "count reported",
 ]
 
 PENDING = re.compile(r"pending\(([a-z_]+)\)")
@@ -76,7 +79,9 @@ def run_part(chk, n_cfg=None, unis=None):
             chk.assumptions.append(a)
     pv = {"pairs": 0, "in_fragment": 0, "accepted": 0, "accepted_nontrivial": 0, "rejected_by_feature": {},
           "pending_proof": {}, "rejected_in_fragment": 0, "translation_check_failures": 0,
-          "universes_run": 0, "universes_in_contract": 0, "theorem": "tv2_sound / tv2_sound_execute (coq/C01/ProofsTvMain.v)"}
+          "accepted_by_theorem": {}, "max_fetch_depth": 0,
+          "universes_run": 0, "universes_in_contract": 0,
+          "theorem": "tv3_sound / tv3_sound_execute (plan trees, coq/C01/ProofsPlan3Main.v); fallback tv2_sound (depth 1, coq/C01/ProofsTvMain.v)"}
     chk.coverage["plan_validation"] = pv
     ok, log = vlib.build_model("C01p")
     if not ok:
@@ -148,6 +153,11 @@ def run_part(chk, n_cfg=None, unis=None):
                 pv["universes_run"] += int(c.group(2))
             if "(accepted true)" in detail:
                 pv["accepted"] += 1
+                th = "tv3_sound" if "(theorem tv3_sound)" in detail else "tv2_sound"
+                pv["accepted_by_theorem"][th] = pv["accepted_by_theorem"].get(th, 0) + 1
+                dm = re.search(r"\(depth (\d+)\)", detail)
+                if dm:
+                    pv["max_fetch_depth"] = max(pv["max_fetch_depth"], int(dm.group(1)))
                 if status == "ok" and detail.startswith("nt"):
                     pv["accepted_nontrivial"] += 1
                     if len(samples) < 3:
